@@ -233,7 +233,9 @@ def multifile(ctx, props_ok, tmp):
         desc = {"kind": "multifile", "mode": mode, "args": MODE_FLAGS[mode] + ["--odkvp", "put", CTX_PUT] + names, "records_per_batch": rpb,
                 "files": {n: render_file(mode, ls).decode() for n, ls in files}}
         if whole[0] != 0:
-            ctx.violation(dict(desc, broken="multi-file run failed", status=whole[0], stderr=whole[2].decode("latin1")[-500:]), found_input=False)
+            # every generated file is well-formed on its own: failing to read them in sequence is a failing input of "inputs concatenate"
+            ctx.violation(dict(desc, broken="oracle: well-formed files cannot be read in sequence", status=whole[0], stderr=whole[2].decode("latin1")[-500:],
+                               observed=whole[1].decode("latin1"), **{"class": "multi-file-run-fails:" + mode}))
             continue
         outs = parse_dkvp(whole[1])
         endnr = [int(dict(r)[b"_endnr"]) for r in outs if b"_endnr" in dict(r)]
@@ -347,7 +349,7 @@ def prepipe_race(ctx, d, data, want):
     """the prepipe child can exit before its output has been read: run the same prepipe'd input many times concurrently"""
     n = 40 if ctx.tier == "quick" else 400
     args = ["--prepipe", "cat", "put", '$nr = NR; $fnr = FNR', "plain.dkvp"]
-    results = pmap(ctx, lambda i: mlr(ctx, args, b"", cwd=d), range(n), workers=max(4, int(os.environ.get("VERIF_PAR", "2"))))
+    results = pmap(ctx, lambda i: mlr(ctx, args, b"", cwd=d), range(n), workers=int(os.environ.get("VERIF_PAR", "2")))
     short = [(st, out) for st, out, err in results if st == 0 and out != want]
     other = [(st, out, err) for st, out, err in results if st != 0]
     for i in range(n):
